@@ -27,7 +27,6 @@ FSM_OPERATION_MAP_SOURCE = {
         "<": FSMOperate.add_cache_to(status=FSMStatus.AFTER_3C),
         ">": FSMOperate.add_cache_to(status=FSMStatus.AFTER_3E),
         "|": FSMOperate.add_cache_to(status=FSMStatus.AFTER_7C),
-        "0": FSMOperate.add_cache_to(status=FSMStatus.AFTER_0),
         " ": (FSMOperate.add_and_handle_cache(marks=AMTMark.SPACE)
               if not LEXICAL_IGNORE_SPACE else FSMOperate.move_and_clean_cache()),
         "\n": (FSMOperate.add_and_handle_cache(marks=AMTMark.SPACE)
@@ -43,6 +42,7 @@ FSM_OPERATION_MAP_SOURCE = {
         frozenset({"b", "B"}): FSMOperate.add_cache_to(status=FSMStatus.AFTER_B),
         frozenset({"x", "X"}): FSMOperate.add_cache_to(status=FSMStatus.AFTER_X),
         char_set.NUMBER: FSMOperate.add_cache_to(status=FSMStatus.IN_INT),
+        "0": FSMOperate.add_cache_to(status=FSMStatus.AFTER_0),  # 需要在 NUMBER 之后设置，否则会被 NUMBER 中的 "0" 覆盖
         "(": FSMOperate.start_parenthesis(),
         ")": FSMOperate.end_parenthesis(),
         "[": FSMOperate.start_slice(),
